@@ -886,6 +886,19 @@ def search_broken_keyword(ck: Check) -> None:
     for st, r, doc in todo:
         oracle_doc(ck, camp, doc, st, r)
     if not ck.failures:
+        # the families: inheritance lattices (a broken inh.find / inh.pass shows there), nullable type lists
+        rng = ck.rng.fork("search-families")
+        for i in range(40):
+            doc, _f, _w = semfam.lattice_doc(rng.fork(f"l{i}"), i)
+            for st in STYLES:
+                oracle_doc(ck, camp, doc, st, "contype")
+            doc, _f, _c = semfam.nullable_doc(rng.fork(f"n{i}"), i)
+            oracle_doc(ck, camp, doc, "v2", "contype")
+            from ..runner import match_finding
+
+            if any(match_finding(ck.findings, f.classification) is None for f in ck.failures):
+                return
+    if not ck.failures:
         for _label, doc in focused_docs() + ap_value_docs():
             for st in STYLES:
                 for r in ROUTINGS:
